@@ -130,6 +130,15 @@ CHECKS.update({
     ),
 })
 
+CHECKS.update({
+    "C02": dict(
+        level="exploration", ref="5 (C02), 3.6",
+        technique="TLA+ oracle (Layers.tla over Codec.tla / StringOps.tla): from a proposed (stack, payload, surroundings) TLC re-encodes the input, decides per layer whether the wrapped text is in the documented domain, and computes the chain of nodes (type, label, exact value, exact span, outermost first), the payload indicators beneath it and the flattened text; the real scan tree and flatten() are judged against them",
+        text="20 layer kinds (bare / atob / Base64Decode / FromBase64String base64, lower / upper hex, FromHexString, UTF-16, decimal / hexadecimal XML references, unescape, concatenation, reverse, StrReverse, four replace dialects, caret-escaped cmd, PowerShell byte arrays): every single layer x 8 payload classes, every ordered pair, sampled (thorough: all 6,859) triples, random stacks of height 4..7, at 4 offsets with 4 suffixes.",
+        note="one spelling per layer kind; containment of the chain, not equality of whole trees; " + TRUST,
+    ),
+})
+
 NOT_YET = {
     "C01": "check under construction in this session (Session.tla + drivers); not claimed until it runs clean",
     "C02": "check under construction (Layers.tla)",
